@@ -236,8 +236,16 @@ func sentinelSource(p *Prog, v ssa.Value) (string, bool) {
 		return "", false
 	}
 	switch n := eventName(c); n {
-	case "raft.LogStore.FirstIndex", "raft.LogStore.LastIndex", "types.SegmentWriter.LastIndex", "wal.state.firstIndex", "wal.state.lastIndex":
+	case "raft.LogStore.FirstIndex", "raft.LogStore.LastIndex", "types.SegmentWriter.LastIndex":
 		return n, true
+	}
+	if callee := c.Call.StaticCallee(); callee != nil {
+		switch callee {
+		case p.Func("", "state.firstIndex"):
+			return "wal.state.firstIndex", true
+		case p.Func("", "state.lastIndex"):
+			return "wal.state.lastIndex", true
+		}
 	}
 	return "", false
 }
